@@ -23,4 +23,12 @@ SPECS = {
             "BigDecimal is used as an independent referee on the Rust side",
         ],
     },
+    "C14": {
+        "id": "C14", "runners": ["RunC14"],
+        "partial": ["text-level parse/format of date, time and timestamp strings is chrono's; modelled and validated by correspondence, round trip over text not a theorem", "completeness of parse_duration (every in-range span is accepted) is checked by the referee on every case, not proved"],
+        "assumptions": [
+            "date/time/timestamp text is parsed and formatted by chrono (external): its behaviour is modelled and validated by the correspondence run, not verified",
+            "jiff SignedDuration / civil types are used as referees on the Rust side within their range",
+        ],
+    },
 }
